@@ -17,6 +17,7 @@ lines pull items out of the repository source as text and annotate them:
       //@loop N top :: TEXT          inserted at start of loop body
       //@loop N end :: TEXT          inserted at end of loop body (before the X4 increment)
       //@loop N stepby TYPE          X4 rewrite of `for i in (a..b).step_by(k)[.rev()]`
+      //@loop N enumerate            X6 rewrite of `for (i, x) in place.iter().enumerate() {` into an index loop (`let x = &place[i]`)
       //@loop N itermut IDX          X5 rewrite of `for x in &mut place {` into an index loop (`let x = &mut place[IDX]`)
       //@before loop=N guard=IDENT [nth=K] :: TEXT   before the K-th top-level statement of loop N's body
       //@after  loop=N guard=IDENT [nth=K] :: TEXT   (N=0: the function body) that mentions IDENT
@@ -131,6 +132,8 @@ class FnSplice:
                     L["stepby"] = args[2]
                 elif sub == "itermut":
                     L["itermut"] = args[2]
+                elif sub == "enumerate":
+                    L["enumerate"] = True
                 else:
                     raise ScanError("bad loop directive %s" % sub)
             elif kind in ("before", "after"):
@@ -159,7 +162,24 @@ class FnSplice:
             hdr = "\n".join(L.get("hdr", []))
             endtxt = "\n".join(L.get("endtxt", []))
             header_src = text[L["kw"]:L["open"]]
-            if "itermut" in L:
+            if "enumerate" in L:
+                # X6: `for (I, X) in PLACE.iter().enumerate() {` => `{ let mut I: usize = 0; while I < PLACE.len() HDR { let X = &PLACE[I]; body; I += 1; } }`
+                mm = re.match(r"for\s+\(\s*([A-Za-z_][A-Za-z0-9_]*)\s*,\s*([A-Za-z_][A-Za-z0-9_]*)\s*\)\s+in\s+([A-Za-z_][A-Za-z0-9_\.]*)\s*\.iter\(\)\s*\.enumerate\(\)\s*$", " ".join(m[L["kw"]:L["open"]].split()))
+                if not mm:
+                    raise ScanError("X6 not applicable: loop %d of %s is `%s`" % (idx + 1, p["name"], header_src.strip()))
+                ivar, var, expr = mm.group(1), mm.group(2), mm.group(3)
+                body = m[L["open"] + 1:L["close"]]
+                if re.search(r"\b(continue|break|return)\b", body) or "?" in body:
+                    raise ScanError("X6 not applicable: control transfer in body of loop %d of %s" % (idx + 1, p["name"]))
+                if re.search(r"\b%s\s*(=[^=]|\+=|-=)" % ivar, body) or re.search(r"\blet\s+(mut\s+)?(%s|%s)\b" % (ivar, var), body):
+                    raise ScanError("X6 not applicable: `%s`/`%s` assigned or rebound in loop %d of %s" % (ivar, var, idx + 1, p["name"]))
+                head = "; { let mut %s: usize = 0; while %s < %s.len()\n%s\n" % (ivar, ivar, expr, hdr)
+                repl.append((L["kw"], L["open"], head))
+                ins.append((L["open"] + 1, 10**8, "\nlet %s = &%s[%s];\n" % (var, expr, ivar)))
+                add_ins(L["close"], "%s\n%s += 1; " % (endtxt, ivar))
+                add_ins(L["close"] + 1, " }")
+                x4.append({"fn": p["name"], "iter": expr + ".iter().enumerate()", "var": var, "x5": True, "while": "", "side": "true"})
+            elif "itermut" in L:
                 # X5: `for PAT in &mut EXPR {` => `{ let mut IDX: usize = 0; while IDX < EXPR.len() HDR { let PAT = &mut EXPR[IDX]; body; IDX += 1; } }`
                 mm = re.match(r"for\s+([A-Za-z_][A-Za-z0-9_]*)\s+in\s+&mut\s+([A-Za-z_][A-Za-z0-9_\.]*)\s*$", " ".join(m[L["kw"]:L["open"]].split()))
                 if not mm:
